@@ -64,6 +64,9 @@ var c08Cfgs = map[string]Cfg{
 	"default": {Default: true},
 	"shared":  {Filename: "shared"},
 	"ext":     {Ext: ".txt"},
+	// a file named like the default file of alpha_test.go, used by tests of every test file (snaps.Filename("alpha_test"),
+	// or - the same thing on disk - a helper in alpha_test.go through which the other files' tests take their snapshots)
+	"alphafile": {Filename: "alpha_test"},
 }
 
 func genC08Steps(t *rapid.T, depth int, subPool []string) []Step {
@@ -81,8 +84,8 @@ func genC08Steps(t *rapid.T, depth int, subPool []string) []Step {
 			continue
 		}
 		api := rapid.SampledFrom([]string{"snap", "snap", "json", "ssnap", "sjson"}).Draw(t, "api")
-		kind := rapid.SampledFrom([]string{"default", "shared", "shared", "ext"}).Draw(t, "cfgkind")
-		if kind == "shared" && (api == "ssnap" || api == "sjson") {
+		kind := rapid.SampledFrom([]string{"default", "shared", "shared", "ext", "alphafile"}).Draw(t, "cfgkind")
+		if (kind == "shared" || kind == "alphafile") && (api == "ssnap" || api == "sjson") {
 			kind = "default" // a fixed Filename for standalone snapshots is one file sequence shared by every test: out of domain here
 		}
 		val := map[string]string{"snap": "value", "ssnap": "standalone value", "json": `{"a":1}`, "sjson": `{"a":1}`}[api]
@@ -655,7 +658,9 @@ func genC08Later(t *rapid.T) c08LaterCase {
 func checkC08Later(c c08LaterCase) error {
 	cleanModule()
 	defer cleanModule()
-	shared := func(v string) Step { return Step{Op: "call", API: "snap", Cfg: c08Cfgs["shared"], Value: v, Tag: "shared"} }
+	shared := func(v string) Step {
+		return Step{Op: "call", API: "snap", Cfg: c08Cfgs["shared"], Value: v, Tag: "shared"}
+	}
 	build := func(withSkips bool) map[string]*Node {
 		tests := map[string]*Node{}
 		var alpha []Step
@@ -753,4 +758,104 @@ func classifyC08Later(c c08LaterCase) ([]string, bool) {
 
 func TestC08_SkipInLaterExecution(t *testing.T) {
 	prop[c08LaterCase]{property: "C08", gen: genC08Later, check: checkC08Later, classify: classifyC08Later, weight: 0.15}.run(t)
+}
+
+// ---- a snapshot directory nested inside another one, used only by tests that skip in this run ------------------------
+//
+// `snaps.Dir("__snapshots__/integration")` next to the default `__snapshots__`: the integration tests call snaps.Skip*
+// before their first Match* call (no database in this run), the unit tests run. Nothing below the nested directory was
+// addressed, nothing of it may be listed or removed.
+
+type c08NestedCase struct {
+	Kind  string   `json:"skip_kind"`
+	Upd   string   `json:"update_snaps"`
+	Sort  bool     `json:"sort"`
+	Stale bool     `json:"stale_entry_in_the_default_directory"`
+	APIs  []string `json:"apis_of_the_skipped_test"`
+}
+
+func checkC08Nested(c c08NestedCase) error {
+	cleanModule()
+	defer cleanModule()
+	nested := Cfg{Dir: strp("__snapshots__/integration")}
+	build := func(withSkip bool) map[string]*Node {
+		tests := map[string]*Node{"TestAlpha": {Steps: []Step{
+			{Op: "call", API: "snap", Cfg: c08Cfgs["default"], Value: "alpha", Tag: "default"},
+			{Op: "call", API: "ssnap", Cfg: c08Cfgs["default"], Value: "alpha standalone", Tag: "default"}}}}
+		var beta []Step
+		if withSkip {
+			beta = append(beta, Step{Op: "skip", Kind: c.Kind})
+		}
+		for i, api := range c.APIs {
+			val := map[string]string{"snap": "value", "ssnap": "standalone value", "json": `{"a":1}`, "sjson": `{"a":1}`}[api]
+			beta = append(beta, Step{Op: "call", API: api, Cfg: nested, Value: fmt.Sprintf("%s", val), Tag: fmt.Sprintf("nested%d", i)})
+		}
+		beta = append(beta, Step{Op: "sub", Name: "sub1", Steps: []Step{{Op: "call", API: "snap", Cfg: nested, Value: "nested sub"}}})
+		tests["TestBeta"] = &Node{Steps: beta}
+		return tests
+	}
+	if _, out, err := runProgram(RunOpts{Pkg: "."}, Scenario{Tests: build(false)}); err != nil {
+		return fmt.Errorf("recording run: %v (%s)", err, clip(out))
+	}
+	if c.Stale {
+		p := filepath.Join(scnRoot, "__snapshots__", "alpha_test.snap")
+		b, _ := os.ReadFile(p)
+		os.WriteFile(p, append(b, []byte("\n[TestGone - 1]\nstale body\n---\n")...), 0o644)
+	}
+	ageDir(scnRoot)
+	before := createdFiles(scnRoot)
+	nestedFiles := 0
+	for p := range before {
+		if strings.HasPrefix(p, filepath.Join("__snapshots__", "integration")+string(filepath.Separator)) {
+			nestedFiles++
+		}
+	}
+	if nestedFiles == 0 {
+		return fmt.Errorf("harness/location: recording created nothing below __snapshots__/integration: %v", before)
+	}
+	_, out, err := runProgram(RunOpts{Pkg: ".", Upd: c.Upd, UpdSet: c.Upd != ""}, Scenario{Tests: build(true), Clean: CleanSpec{Call: true, Sort: c.Sort}})
+	if err != nil {
+		return fmt.Errorf("run: %v (%s)", err, clip(out))
+	}
+	after := createdFiles(scnRoot)
+	sum := parseSummaryLists(out)
+	for _, f := range sum.Files {
+		if strings.Contains(f, "integration") {
+			return fmt.Errorf("file %q of the nested directory (its tests called snaps.%s) is listed as obsolete", f, c.Kind)
+		}
+	}
+	for _, id := range sum.Tests {
+		if strings.HasPrefix(id, "TestBeta") {
+			return fmt.Errorf("entry %q of a test that called snaps.%s is listed as obsolete", id, c.Kind)
+		}
+	}
+	for p, b := range before {
+		if !strings.HasPrefix(p, filepath.Join("__snapshots__", "integration")) {
+			continue
+		}
+		a, ok := after[p]
+		if !ok {
+			return fmt.Errorf("%q (nested directory, owner skipped through snaps.%s, UPDATE_SNAPS=%q) was removed", p, c.Kind, c.Upd)
+		}
+		if !b.IsDir && (a.Data != b.Data || !a.Mtime.Equal(b.Mtime)) {
+			return fmt.Errorf("%q (nested directory, owner skipped) was written", p)
+		}
+	}
+	return nil
+}
+
+func TestC08_NestedDirectorySkipped(t *testing.T) {
+	prop[c08NestedCase]{property: "C08", check: checkC08Nested, weight: 0.1,
+		gen: func(t *rapid.T) c08NestedCase {
+			return c08NestedCase{Kind: rapid.SampledFrom([]string{"Skip", "Skipf", "SkipNow"}).Draw(t, "kind"), Upd: rapid.SampledFrom([]string{"", "clean", "clean", "true"}).Draw(t, "upd"),
+				Sort: rapid.Bool().Draw(t, "sort"), Stale: rapid.Bool().Draw(t, "stale"),
+				APIs: rapid.SliceOfN(rapid.SampledFrom([]string{"snap", "json", "ssnap", "sjson"}), 1, 3).Draw(t, "apis")}
+		},
+		classify: func(c c08NestedCase) ([]string, bool) {
+			cls := []string{"nested_snapshot_directory_whose_tests_skip"}
+			if c.Upd != "" {
+				cls = append(cls, "deleting_mode")
+			}
+			return cls, true
+		}}.run(t)
 }
